@@ -18,6 +18,7 @@ DRIVERS = {
     'config_ops': {'vm': 'config_ops'},
     'waituntil': {'vm': 'waituntil'},
     'operators_total': {'vm': 'operators_total'},
+    'operators_select': {'vm': 'operators_total'},
     'runtime_core': {'vm': 'runtime_core'},
     'runtime_execute': {'vm': 'runtime_step'},
     'runtime_sched': {'vm': 'waituntil'},
